@@ -131,6 +131,20 @@ func hGoodFrames() []hFrame {
 			return lorawan.PHYPayload{MHDR: lorawan.MHDR{MType: lorawan.Proprietary, Major: lorawan.LoRaWANR1}, MIC: lorawan.MIC{8, 8, 8, 8},
 				MACPayload: &lorawan.DataPayload{Bytes: hBytes(9, 0x30)}}
 		}},
+		// proprietary frames as long as a join-request (23 bytes), a rejoin-request 0/2 (19) and a
+		// rejoin-request 1 (24): what a reused receiver still holds from such a frame fits them exactly
+		{"proprietary-23", func() lorawan.PHYPayload {
+			return lorawan.PHYPayload{MHDR: lorawan.MHDR{MType: lorawan.Proprietary, Major: lorawan.LoRaWANR1}, MIC: lorawan.MIC{8, 8, 8, 9},
+				MACPayload: &lorawan.DataPayload{Bytes: hBytes(18, 0x31)}}
+		}},
+		{"proprietary-19", func() lorawan.PHYPayload {
+			return lorawan.PHYPayload{MHDR: lorawan.MHDR{MType: lorawan.Proprietary, Major: lorawan.LoRaWANR1}, MIC: lorawan.MIC{8, 8, 8, 10},
+				MACPayload: &lorawan.DataPayload{Bytes: hBytes(14, 0x32)}}
+		}},
+		{"proprietary-24", func() lorawan.PHYPayload {
+			return lorawan.PHYPayload{MHDR: lorawan.MHDR{MType: lorawan.Proprietary, Major: lorawan.LoRaWANR1}, MIC: lorawan.MIC{8, 8, 8, 11},
+				MACPayload: &lorawan.DataPayload{Bytes: hBytes(19, 0x33)}}
+		}},
 	}
 }
 
